@@ -17,12 +17,14 @@
 (*  eval      : T, the documented meaning of the parts at T (dE, Es, Eg:   *)
 (*              the number given, or what the given object itself reports  *)
 (*              through get_delta_E / get_E, else get_delta_H / get_H),    *)
-(*              tconst (every part has a T-independent energy), oRT =      *)
+(*              ndE / nEs / nEg (the part was given as a number), tconst   *)
+(*              (every part has a T-independent energy), oRT =             *)
 (*              <<U,H,F,G>>/RT, zero = <<S/R, Cv/R, Cp/R, S, Cv, Cp>>,     *)
 (*              Ru = R(units), val = <<U,H,F,G>> in units, ok, fin         *)
 (*  sum       : ExtendedLSR only: energies of the LSRs of the terms (zero  *)
 (*              intercept) at the temperature of the last evaluation       *)
 (*  roundtrip : ok, cls, as1/b1 before and as2/b2 after (Dec2), notes      *)
+(*  replay    : got, want, wantnum (only when the replay comparison failed) *)
 (* Verdicts are total: failing clause names are accumulated in TLC         *)
 (* register 1 and printed by the postcondition.                            *)
 (***************************************************************************)
@@ -34,6 +36,16 @@ VARIABLES l, st
 \* R in kcal/mol/K as documented by pmutt.constants.R ("kcal/mol/K ... 1.9872036e-3")
 RKcal == <<19872036, -10>>
 
+\* The as-found route of a number: kcal/mol -> eV by convert_unit (table entries kcal/mol = 0.000239006,
+\* eV/molecule = 6.242e18 / 6.02214086e23), back by R('kcal/mol/K') / R('eV/K') = 1.9872036e-3 / 8.6173303e-5.
+\* A value that is off by exactly this factor is the known finding X07-F2 (clauses *_KnownTableDrift);
+\* any other deviation keeps the plain clause name.
+Drift == <<100007755, -8>>
+ASSUME DriftIsTheTableRoute ==
+   Close(Mul(Mul(Drift, <<239006, -9>>), Mul(<<602214086, 15>>, <<86173303, -12>>)),
+         Mul(<<6242, 15>>, RKcal), 7)
+Dr(x, isnum) == IF isnum THEN Mul(x, Drift) ELSE x
+
 SeqSet(s) == {s[i] : i \in 1..Len(s)}
 NoSt == [kind |-> "none", as |-> <<>>, b |-> Zero, has |-> FALSE, U |-> Zero, T |-> Zero,
          tconst |-> FALSE, pend |-> "none", pi |-> 0, pold |-> Zero, pnew |-> Zero]
@@ -44,11 +56,14 @@ ConstructClauses(e) == IF e.ok THEN {} ELSE {"ConstructRaises"}
 \* ---- float: a number stands for the energy it states (kcal/mol)
 FloatClauses(e) ==
    IF ~e.ok THEN {"FloatRaises"} ELSE
-   IF (IF IsZero(e.val) THEN IsZero(e.rep) ELSE Close(e.val, e.rep, 7)) THEN {} ELSE {"FloatMeansEnergy"}
+   IF (IF IsZero(e.val) THEN IsZero(e.rep) ELSE Close(e.val, e.rep, 7)) THEN {}
+   ELSE IF ~IsZero(e.val) /\ Close(Mul(e.val, Drift), e.rep, 7) THEN {"FloatMeansEnergy_KnownTableDrift"}
+   ELSE {"FloatMeansEnergy"}
 
 \* ---- eval
 UKcal(e) == Mul(Mul(e.oRT[1], RKcal), e.T)
 Shape(e) == Len(e.dE) = Len(st.as) /\ Len(e.Es) = Len(st.as) /\ Len(e.Eg) = Len(st.as)
+             /\ Len(e.ndE) = Len(st.as) /\ Len(e.nEs) = Len(st.as) /\ Len(e.nEg) = Len(st.as)
              /\ Len(e.oRT) = 4 /\ Len(e.val) = 4 /\ Len(e.zero) = 6
 EvalClauses(e) ==
    IF ~e.ok THEN {"EvalRaises"}
@@ -59,18 +74,27 @@ EvalClauses(e) ==
        terms == [i \in 1..n |-> Mul(st.as[i], e.dE[i])]
        all == terms \o e.Es \o e.Eg \o <<st.b>>
        rhs == SumSeq(all)
+       \* the same with every part given as a number sent through the as-found table route
+       allD == [i \in 1..n |-> Dr(terms[i], e.ndE[i])] \o [i \in 1..n |-> Dr(e.Es[i], e.nEs[i])]
+               \o [i \in 1..n |-> Dr(e.Eg[i], e.nEg[i])] \o <<st.b>>
+       anynum == \E i \in 1..n : e.ndE[i] \/ e.nEs[i] \/ e.nEg[i]
        u == UKcal(e)
        dU == Sub(u, st.U)
        same == e.tconst /\ st.tconst
-   IN (IF CloseIn(u, rhs, SeqSet(all), 6) THEN {} ELSE {"Relation"})
+   IN (IF CloseIn(u, rhs, SeqSet(all), 6) THEN {}
+       ELSE IF anynum /\ CloseIn(u, SumSeq(allD), SeqSet(allD), 6) THEN {"Relation_KnownTableDrift"}
+       ELSE {"Relation"})
       \cup (IF \A q \in 2..4 : Close(e.oRT[q], e.oRT[1], 8) THEN {} ELSE {"FourEqual"})
       \cup (IF \A q \in 1..6 : IsZero(e.zero[q]) THEN {} ELSE {"NoEntropy"})
       \cup (IF \A q \in 1..4 : Close(e.val[q], Mul(Mul(e.oRT[q], e.Ru), e.T), 7) THEN {} ELSE {"Units"})
       \cup (IF st.has /\ st.pend = "none" /\ same /\ ~Close(u, st.U, 7) THEN {"TIndependent"} ELSE {})
       \cup (IF st.has /\ st.pend = "slope" /\ same
-               /\ ~CloseIn(dU, Mul(Sub(st.pnew, st.pold), e.dE[st.pi]),
-                           {u, st.U, Mul(st.pnew, e.dE[st.pi]), Mul(st.pold, e.dE[st.pi])}, 6)
-            THEN {"LinearSlope"} ELSE {})
+            THEN LET sc == {u, st.U, Mul(st.pnew, e.dE[st.pi]), Mul(st.pold, e.dE[st.pi])}
+                     step == Mul(Sub(st.pnew, st.pold), e.dE[st.pi]) IN
+                 IF CloseIn(dU, step, sc, 6) THEN {}
+                 ELSE IF e.ndE[st.pi] /\ CloseIn(dU, Mul(step, Drift), sc, 6) THEN {"LinearSlope_KnownTableDrift"}
+                 ELSE {"LinearSlope"}
+            ELSE {})
       \cup (IF st.has /\ st.pend = "intercept" /\ same
                /\ ~CloseIn(dU, Sub(st.pnew, st.pold), {u, st.U, st.pnew, st.pold}, 6)
             THEN {"LinearIcpt"} ELSE {})
@@ -83,6 +107,14 @@ SumClauses(e) ==
    ELSE IF ~(st.has /\ st.pend = "none" /\ Len(e.terms) = Len(st.as)) THEN {"Shape"}
    ELSE LET all == e.terms \o <<st.b>> IN
         IF CloseIn(st.U, SumSeq(all), SeqSet(all), 6) THEN {} ELSE {"ExtIsSumOfLsr"}
+
+\* ---- replay: the driver found the energy off TLC's rational on the 2^-20 grid: got, want, wantnum (the share
+\*      of `want` that comes from parts given as numbers); the name of the verdict is decided here
+ReplayClauses(e) ==
+   LET sc == {e.want, e.wantnum}
+       drifted == Add(Sub(e.want, e.wantnum), Mul(e.wantnum, Drift)) IN
+   IF ~IsZero(e.wantnum) /\ CloseIn(e.got, drifted, sc, 7) /\ ~CloseIn(e.got, e.want, sc, 7)
+   THEN {"ReplayState_KnownTableDrift"} ELSE {"ReplayState"}
 
 \* ---- set
 SetClauses(e) == IF e.ok THEN {} ELSE {"SetRaises"}
@@ -103,6 +135,7 @@ Clauses(e) ==
      [] e.ev = "eval" -> EvalClauses(e)
      [] e.ev = "sum" -> SumClauses(e)
      [] e.ev = "set" -> SetClauses(e)
+     [] e.ev = "replay" -> ReplayClauses(e)
      [] e.ev = "roundtrip" -> RoundTripClauses(e)
      [] OTHER -> {"UnknownEvent"}
 
